@@ -28,6 +28,7 @@ structure PGraph where
   nodes : Array PNode := #[]            -- sorted by handle
   groups : Array (List Nat) := #[]
   clocks : Array (List NodePort) := #[]
+  calive : Array Bool := #[]              -- clock object still exists
   nextId : Nat := 0
 deriving Inhabited
 
@@ -51,6 +52,7 @@ def PGraph.toState (g : PGraph) : State :=
     gnodes := fun x => g.groups.getD x []
     nclocks := g.clocks.size
     clocked := fun x => g.clocks.getD x []
+    calive := fun x => g.calive.getD x false
     order := g.order
     nextId := g.nextId }
 
@@ -66,6 +68,7 @@ def tabulate (s : State) : PGraph :=
       else a) #[]
     groups := ((List.range s.ngroups).map s.gnodes).toArray
     clocks := ((List.range s.nclocks).map s.clocked).toArray
+    calive := ((List.range s.nclocks).map s.calive).toArray
     nextId := s.nextId }
 
 /-- every live node belongs to a group (required of complete designs; `Circuit::createNode` alone leaves the group unset) -/
